@@ -331,6 +331,9 @@ class Prop:
         m = re.match(r'used=(\S+) check=(\S+) missing=(\S+)', out)
         if not m:
             return None if out.startswith('build=') else 'unreadable result ' + out[:200]
+        if ' usedlate=' in out:
+            return 'UsedUserTypes() asked for the first time after Check()/Example()/GetAST() lists %s, asked first it lists %s' % (
+                out.split(' usedlate=')[1][:80], m.group(1)[:80])
         used, chk, named = m.group(1), m.group(2), m.group(3)
         root, reg = self.parse(case.line)
         want = set(refs(root))
